@@ -2,12 +2,13 @@
 # Runs the quick check of the property named in each seeded change against a scratch worktree with that change applied
 # and prints one line per seed: CAUGHT (exit 1 with a VIOLATION line) / MISSED (exit 0) / ERROR.
 cd "$(dirname "$0")"
-for d in seeded/*/; do
+for d in seeded/${1:-}*/; do
   id=$(basename $d)
   prop=$(python3 -c "import json,sys; print(json.load(open('$d/meta.json'))['property'])")
   W=/tmp/sm-$id; git -C /repo worktree remove --force $W 2>/dev/null; rm -rf $W
   git -C /repo worktree add --detach $W HEAD >/dev/null 2>&1 || { echo "$id $prop ERROR worktree"; continue; }
-  (cd $W && git apply $(realpath $d/patch.diff)) 2>/dev/null || { echo "$id $prop ERROR patch"; git -C /repo worktree remove --force $W; continue; }
+  P=$(realpath $d/patch.diff)
+  (cd $W && (git apply $P 2>/dev/null || patch -p1 -s < $P)) 2>/dev/null || { echo "$id $prop ERROR patch"; git -C /repo worktree remove --force $W; continue; }
   VERIF_REPO=$W ./run.py $prop --tier quick > /tmp/sm-$id.out 2>&1; e=$?
   n=$(grep -c "^VIOLATION" /tmp/sm-$id.out)
   if [ $e -eq 1 ] && [ $n -gt 0 ]; then r=CAUGHT; elif [ $e -eq 0 ]; then r=MISSED; else r="ERROR(exit=$e)"; fi
